@@ -571,8 +571,10 @@ package impl
 
 // remaining implementations of interface methods with a declared lock effect (C20): thin contracts (memory safety, lock effects)
 //@ func (*impl.receiver).ReceiveRequest {C20}
+//@   acquires {C20} channels.progressCache.lk, graphsync.Transport.dtChannelsLk, graphsync.dtChannel.lk, graphsync.dtChannel.optionsLk, graphsync.requestIDToChannelIDMap.lk, registry.Registry.registryLk, tracing.SpansIndex.spansLk, transportoptions.TransportOptions.optionsLk
 //@   requires incoming != nil
 //@ func (*impl.receiver).ReceiveResponse {C20}
+//@   acquires {C20} graphsync.Transport.dtChannelsLk, graphsync.dtChannel.lk, tracing.SpansIndex.spansLk
 //@   requires incoming != nil
 //@ func (*impl.receiver).ReceiveError {C20}
 //@   requires err != nil
